@@ -147,6 +147,13 @@ theorem revoke_request_effective_partial (res : List Nat) (c : ChildM) (rcn key 
     (hclass : rcn ∈ res) : processChildRevokeKey res c rcn key = .revoked (c.parentNameForRcn rcn) key := by
   simp [processChildRevokeKey, hclass, hiss]
 
+/-- With the proposed repair (translate, then test) the full statement holds: a positive answer for an
+issued key in a class the parent has – under whichever name the child was told – revokes it there. -/
+theorem revoke_request_effective_after_fix (res : List Nat) (c : ChildM) (rcn key : Nat)
+    (hiss : c.isIssued key = true) (hclass : c.parentNameForRcn rcn ∈ res) :
+    processChildRevokeKeyFixed res c rcn key = .revoked (c.parentNameForRcn rcn) key := by
+  simp [processChildRevokeKeyFixed, hclass, hiss]
+
 example : ∃ (res : List Nat) (c : ChildM) (rcn key : Nat),
     (processChildRevokeKey res c rcn key).positive = true ∧ c.isIssued key = true ∧ rcn ∈ res :=
   ⟨[0], { usedKeys := [(5, some 0)] }, 0, 5, by decide, by decide, by decide⟩
